@@ -80,6 +80,8 @@ pub struct MockIo {
     pub sscript: std::collections::VecDeque<FStep>,
     pub flushed_after_last_write: bool,
     pub shutdown_done: bool,
+    /// bytes accepted per write once `wscript` is exhausted (0 = everything offered)
+    pub default_accept: u16,
     // per-call observation
     pub events: Vec<Ev>,
     pub last_waker: Option<Waker>,
@@ -131,7 +133,7 @@ impl AsyncRead for MockIo {
 impl AsyncWrite for MockIo {
     fn poll_write(mut self: Pin<&mut Self>, cx: &mut Context<'_>, buf: &[u8]) -> Poll<io::Result<usize>> {
         let this = &mut *self;
-        let step = this.wscript.pop_front().unwrap_or(WStep::Accept(u16::MAX));
+        let step = this.wscript.pop_front().unwrap_or(WStep::Accept(if this.default_accept == 0 { u16::MAX } else { this.default_accept }));
         match step {
             WStep::Pending => {
                 this.last_waker = Some(cx.waker().clone());
@@ -270,6 +272,15 @@ impl Decoder for LenU16 {
             return Ok(Some(TFrame::End));
         }
         Ok(None)
+    }
+}
+
+impl Encoder<Vec<u8>> for LenU8 {
+    type Error = io::Error;
+    fn encode(&mut self, item: Vec<u8>, dst: &mut BytesMut) -> Result<(), io::Error> {
+        dst.put_u8(item.len() as u8);
+        dst.put_slice(&item[..item.len().min(255)]);
+        Ok(())
     }
 }
 
